@@ -98,21 +98,20 @@ func c11Check(ops []interface{}) {
 
 // Harness_C11_OneOp: one RFC 6902 operation of any kind with arbitrary path/from pointers.
 func Harness_C11_OneOp() {
+	firstLens, nextLens, withLead = []int{1, 7, 9}, []int{1}, true
 	c11Check([]interface{}{anyOp("op0")})
 }
 
 // Harness_C11_TwoOps: a harmless first operation followed by an arbitrary one (every operation of a list is
 // subject to validation, not just the first).
 func Harness_C11_TwoOps() {
-	firstLens = []int{7, 9}
-	nextLens = []int{1}
+	firstLens, nextLens, withLead = []int{7, 9}, []int{1}, true
 	first := map[string]interface{}{"op": "add", "path": "/harmless", "value": "v"}
 	c11Check([]interface{}{first, anyOp("op1")})
 }
 
 // HarnessT_C11_OneOpWide: token lengths 0,1,2,6,7,9,10,11 (all member names, prefix siblings, escapes, indices).
 func HarnessT_C11_OneOpWide() {
-	firstLens = []int{0, 1, 2, 6, 7, 9, 10, 11}
-	nextLens = []int{1, 2}
+	firstLens, nextLens, withLead = []int{0, 1, 2, 6, 7, 9, 10, 11}, []int{1, 2}, true
 	c11Check([]interface{}{anyOp("op0")})
 }
